@@ -211,6 +211,8 @@ def units(tier):
                 us.append(("unit_rate", (m, (1,) * n, perm, None, False, True)))
         us.append(("unit_rate", (m, (1, 1), (1, 0), None, True, True)))
     us.sort(key=lambda u: -(sum(u[1][1]) * 2 ** len(u[1][1]) * (10 if u[0] == "unit_rate" else 1)))
+    if tier == "quick":
+        us += [("unit_compute", (m, (1,) * 6)) for m in extract.MODELS if m in FULL]
     return us
 
 
